@@ -1,4 +1,4 @@
-(* The comparer rejects (AssertionError) every single difference of a noticed class between a
+(* The comparer rejects (AssertionError) every single difference of any class between a
    named, well-formed netlist value and its copy. *)
 From Coq Require Import String List Arith NArith ZArith Bool Lia Permutation.
 From SV Require Import Base.Base Cmp.Comparer Cmp.Diff Proofs.CmpBase Proofs.CmpPinSet Proofs.CmpAccept.
@@ -327,7 +327,7 @@ Qed.
 Lemma cmp_items_splice_reject D1 k v v' D2 :
   keys_nodup (D1 ++ (k, v) :: D2) = true -> pval_eqb v v' = false ->
   forall todo done, D1 = done ++ todo ->
-  cmp_items (todo ++ (k, v) :: D2) (Some (D1 ++ (k, v') :: D2)) = Reject.
+  cmp_items (todo ++ (k, v) :: D2) (D1 ++ (k, v') :: D2) = Reject.
 Proof.
   intros Hk Hv. induction todo as [|[k1 v1] todo IH]; intros done HD; cbn.
   - rewrite sassoc_app_notin by (eapply keys_nodup_notin; eassumption).
@@ -340,21 +340,38 @@ Proof.
     apply IH. reflexivity.
 Qed.
 
-Lemma cmp_props_splice L1 d d' L2 : forallb keys_nodup L1 = true ->
-  forall pre,
-  cmp_props (length pre) (L1 ++ d :: L2) (pre ++ L1 ++ d' :: L2) =
-  seq (cmp_items d (Some d'))
-      (cmp_props (S (length (pre ++ L1))) L2 (pre ++ L1 ++ d' :: L2)).
+(* the entries before the one that differs are accepted *)
+Lemma cmp_props_prefix L1 r r' : forallb keys_nodup L1 = true ->
+  cmp_props (L1 ++ r) (L1 ++ r') = cmp_props r r'.
 Proof.
-  induction L1 as [|e L1 IH]; intros Hk pre.
-  - cbn [app cmp_props]. rewrite nth_error_app_here, app_nil_r. reflexivity.
-  - cbn in Hk. apply andb_true_iff in Hk as [He Hk]. cbn [app cmp_props].
-    rewrite nth_error_app_here.
-    rewrite (cmp_items_suffix e He e []) by reflexivity. cbn [seq].
-    replace (S (length pre)) with (length (pre ++ [e])) by (rewrite app_length; cbn; lia).
-    replace (pre ++ e :: L1 ++ d' :: L2) with ((pre ++ [e]) ++ L1 ++ d' :: L2)
-      by (rewrite <- app_assoc; reflexivity).
-    rewrite IH by assumption. rewrite <- app_assoc. reflexivity.
+  induction L1 as [|e L1 IH]; intro Hk; [reflexivity|].
+  cbn in Hk. apply andb_true_iff in Hk as [He Hk]. cbn [app cmp_props].
+  rewrite keys_eqb_refl. cbn [check seq].
+  rewrite (cmp_items_suffix e He e []) by reflexivity. cbn [seq]. apply IH. assumption.
+Qed.
+
+(* the keys of a dictionary do not depend on the values *)
+Lemma has_key_splice k D1 k0 (v v' : pval) D2 :
+  has_key k (D1 ++ (k0, v) :: D2) = has_key k (D1 ++ (k0, v') :: D2).
+Proof.
+  unfold has_key. induction D1 as [|[k1 v1] D1 IH]; cbn.
+  - destruct (str_eqb k k0); reflexivity.
+  - destruct (str_eqb k k1); [reflexivity|apply IH].
+Qed.
+
+Lemma keys_eqb_splice D1 k v v' D2 :
+  keys_eqb (D1 ++ (k, v) :: D2) (D1 ++ (k, v') :: D2) = true.
+Proof.
+  unfold keys_eqb. apply andb_true_iff. split; apply forallb_forall; intros kv Hin.
+  - rewrite <- (has_key_splice (fst kv) D1 k v v' D2). apply in_has_key. assumption.
+  - rewrite (has_key_splice (fst kv) D1 k v v' D2). apply in_has_key. assumption.
+Qed.
+
+(* a key that only the second dictionary has *)
+Lemma keys_eqb_extra d kv : has_key (fst kv) d = false -> keys_eqb d (d ++ [kv]) = false.
+Proof.
+  intro H. unfold keys_eqb. rewrite forallb_app. cbn [forallb]. rewrite H.
+  rewrite andb_false_r. cbn. apply andb_false_r.
 Qed.
 
 Lemma cmp_ref_neq r r' : r' <> r -> cmp_ref (Some r) (Some r') = Reject.
@@ -369,18 +386,33 @@ Lemma inst_diff_name m i i' : inst_diff m i i' -> i_name i' = i_name i.
 Proof. destruct 1; reflexivity. Qed.
 
 Lemma inst_diff_reject m i i' :
-  noticed m = true -> props_ok i -> inst_diff m i i' -> cmp_inst (Some i) (Some i') = Reject.
+  props_ok i -> inst_diff m i i' -> cmp_inst (Some i) (Some i') = Reject.
 Proof.
-  intros Hm Hp Hd. destruct Hd as [i r r' Hr Hne|i ps ps' Hps Hs| | |]; try discriminate;
+  intros Hp Hd.
+  destruct Hd as [i r r' Hr Hne|i ps ps' Hps Hs|i ps' Hps|i ps d Hps|i ps l1 d kv l2 Hps Hl Hnew];
     unfold cmp_inst; cbn [oi_name oi_oid i_name i_oid i_ref i_props]; rewrite !oname_eqb_refl; cbn [check seq].
   - rewrite Hr, (cmp_ref_neq r r' Hne). reflexivity.
   - rewrite cmp_ref_refl. cbn [seq]. unfold props_ok in Hp. rewrite Hps in *.
     inversion Hs as [L1 d d' L2 Hdd HL HL']. subst ps.
     assert (HL1 : forallb keys_nodup L1 = true) by (eapply forallb_app_l; eassumption).
-    pose proof (cmp_props_splice L1 d d' L2 HL1 []) as E. cbn [length app] in E. rewrite E. clear E.
+    rewrite (length_splice L1 d d' L2), Nat.eqb_refl. cbn [check seq].
+    rewrite (cmp_props_prefix L1 (d :: L2) (d' :: L2) HL1). cbn [cmp_props].
     destruct Hdd as [D1 k v v' D2 Hv].
+    rewrite keys_eqb_splice. cbn [check seq].
     rewrite (cmp_items_splice_reject D1 k v v' D2) with (done := []); try reflexivity; try assumption.
     eapply forallb_app_mid. eassumption.
+  - (* EDIF.properties only on the copy *)
+    rewrite cmp_ref_refl, Hps. reflexivity.
+  - (* one more entry in the copy *)
+    rewrite cmp_ref_refl, Hps. cbn [seq].
+    replace (Nat.eqb (length ps) (length (ps ++ [d]))) with false; [reflexivity|].
+    symmetry. apply Nat.eqb_neq. rewrite app_length. cbn. lia.
+  - (* one more key in an entry of the copy *)
+    rewrite cmp_ref_refl, Hps. cbn [seq]. unfold props_ok in Hp. rewrite Hps in Hp. subst ps.
+    assert (HL1 : forallb keys_nodup l1 = true) by (eapply forallb_app_l; eassumption).
+    rewrite (length_splice l1 d (d ++ [kv]) l2), Nat.eqb_refl. cbn [check seq].
+    rewrite (cmp_props_prefix l1 (d :: l2) ((d ++ [kv]) :: l2) HL1). cbn [cmp_props].
+    rewrite (keys_eqb_extra d kv Hnew). reflexivity.
 Qed.
 
 (* ---------- definitions ---------- *)
@@ -477,15 +509,18 @@ Proof.
 Qed.
 
 Lemma inst_diff_pins_ok m l1 i i' l2 d :
-  d_insts d = l1 ++ i :: l2 -> noticed m = true -> inst_diff m i i' ->
+  d_insts d = l1 ++ i :: l2 -> inst_diff m i i' ->
   forallb (wf_cable (d_insts d)) (d_cables d) = true -> pins_ok (l1 ++ i' :: l2) d.
 Proof.
-  intros Hd Hm Hdiff Hw. unfold pins_ok. rewrite Hd in Hw.
+  intros Hd Hdiff Hw. unfold pins_ok. rewrite Hd in Hw.
   rewrite forallb_forall in *. intros c Hc. specialize (Hw c Hc). unfold wf_cable in *.
   rewrite forallb_forall in *. intros w Hwi. specialize (Hw w Hwi).
   rewrite forallb_forall in *. intros p Hp. specialize (Hw p Hp).
-  destruct Hdiff as [i r r' Hr Hne|i ps ps' Hps Hs| | |]; try discriminate.
+  destruct Hdiff as [i r r' Hr Hne|i ps ps' Hps Hs| | |].
   - eapply wf_pin_splice; try eassumption; cbn; eauto.
+  - eapply wf_pin_splice_noref; try eassumption; reflexivity.
+  - eapply wf_pin_splice_noref; try eassumption; reflexivity.
+  - eapply wf_pin_splice_noref; try eassumption; reflexivity.
   - eapply wf_pin_splice_noref; try eassumption; reflexivity.
 Qed.
 
@@ -493,10 +528,10 @@ Lemma def_diff_name m d d' : def_diff m d d' -> d_name d' = d_name d /\ d_oid d'
 Proof. destruct 1; split; reflexivity. Qed.
 
 Lemma def_diff_reject m lo d d' :
-  wf_def d = true -> no_asg_def d = true -> noticed m = true -> def_diff m d d' ->
+  wf_def d = true -> no_asg_def d = true -> def_diff m d d' ->
   cmp_def lo lo d d' = Reject.
 Proof.
-  intros Hwf Hna Hm Hd. apply wf_def_unpack in Hwf. apply not_asg_of in Hna.
+  intros Hwf Hna Hd. apply wf_def_unpack in Hwf. apply not_asg_of in Hna.
   pose proof (asg_ok_all d Hwf) as Hasg.
   destruct Hd as [m d ps' Hs|d ps' Hs|d ps' Hs|m d cs' Hs|d cs' Hs|d cs' Hs|m d xs' Hs|d xs' Hs Hok|d xs' Hs Hok];
     unfold cmp_def, set_ports, set_cables, set_insts;
@@ -552,10 +587,10 @@ Lemma lib_diff_name m l l' : lib_diff m l l' -> l_name l' = l_name l.
 Proof. destruct 1; reflexivity. Qed.
 
 Lemma lib_diff_reject m l l' :
-  wf_lib l = true -> forallb no_asg_def (l_defs l) = true -> noticed m = true -> lib_diff m l l' ->
+  wf_lib l = true -> forallb no_asg_def (l_defs l) = true -> lib_diff m l l' ->
   cmp_lib l l' = Reject.
 Proof.
-  unfold wf_lib. intros Hwf Hna Hm Hd. apply andb_true_iff in Hwf as [Hn Hw].
+  unfold wf_lib. intros Hwf Hna Hd. apply andb_true_iff in Hwf as [Hn Hw].
   rewrite forallb_forall in Hw, Hna.
   destruct Hd as [m l ds' Hs|l ds' Hs|l ds' Hs]; unfold cmp_lib; cbn [l_name l_oid l_defs];
     rewrite !oname_eqb_refl; cbn [check seq].
@@ -571,9 +606,9 @@ Proof.
 Qed.
 
 Theorem nv_diff_reject m a b :
-  wf_named a -> no_asg a -> noticed m = true -> nv_diff m a b -> cmp_run a b = Reject.
+  wf_named a -> no_asg a -> nv_diff m a b -> cmp_run a b = Reject.
 Proof.
-  unfold wf_named, wf_namedb, no_asg, no_asgb. intros Hwf Hna Hm Hd. split_andb.
+  unfold wf_named, wf_namedb, no_asg, no_asgb. intros Hwf Hna Hd. split_andb.
   rename H into Ht, H1 into Hn, H0 into Hw. rewrite forallb_forall in Hw, Hna.
   destruct Hd as [m a ls' Hs|a ls' Hs|a ls' Hs|m a t t' Htop Hid]; unfold cmp_run;
     cbn [n_name n_oid n_top n_libs]; rewrite !oname_eqb_refl; cbn [check seq].
@@ -600,5 +635,5 @@ Qed.
 Theorem single_diff_rejected a b :
   wf_named a -> no_asg a -> single_diff a b -> compare a b = false.
 Proof.
-  intros Hwf Hna [m [Hm Hd]]. unfold compare. rewrite (nv_diff_reject m a b); auto.
+  intros Hwf Hna [m Hd]. unfold compare. rewrite (nv_diff_reject m a b); auto.
 Qed.
